@@ -23,4 +23,4 @@ OBLIGATIONS = [
 # the area features must consult the surface they were given: the frame obligations (shared with C02/C04) drive ContinentalPlate / OceanicPlate / MantleLayer ::properties with
 # symbolic constant/variable flags for both depth surfaces and assert that a variable min (max) depth surface is the one evaluated
 import C02 as _C02
-OBLIGATIONS = OBLIGATIONS + [dict(o, id=o['id'].replace('C02.frame', 'C11.use')) for o in _C02.OBLIGATIONS if o['id'].startswith('C02.frame')]
+OBLIGATIONS = OBLIGATIONS + [dict(o, id=o['id'].replace('C02.frame', 'C11.use')) for o in _C02.OBLIGATIONS if o['id'].startswith('C02.frame') and not o['id'].endswith('.plume')]
